@@ -7,6 +7,36 @@ use rand::{Rng, SeedableRng};
 use serde_json::{json, Value};
 use std::panic::{catch_unwind, AssertUnwindSafe};
 
+// reader objects that live as long as their thread and serve many files (the API takes &self: state kept between two reads would be a
+// defect); every other read uses a fresh object, so both usages are exercised
+thread_local! {
+    static SHARED_ICCMA: Iccma23Reader = Iccma23Reader::default();
+    static SHARED_APX: AspartixReader = AspartixReader::default();
+    static READS: std::cell::Cell<usize> = const { std::cell::Cell::new(0) };
+}
+fn use_shared() -> bool {
+    READS.with(|c| {
+        c.set(c.get() + 1);
+        c.get() % 2 == 1
+    })
+}
+pub fn read_iccma(bytes: &[u8]) -> anyhow::Result<AAFramework<usize>> {
+    let mut b = bytes;
+    if use_shared() {
+        SHARED_ICCMA.with(|r| r.read(&mut b))
+    } else {
+        Iccma23Reader::default().read(&mut b)
+    }
+}
+pub fn read_apx(bytes: &[u8]) -> anyhow::Result<AAFramework<String>> {
+    let mut b = bytes;
+    if use_shared() {
+        SHARED_APX.with(|r| r.read(&mut b))
+    } else {
+        AspartixReader::default().read(&mut b)
+    }
+}
+
 fn iccma_text(kind: &str) -> &'static str {
     match kind {
         "cmt" => "# a comment 1 2",
@@ -135,9 +165,9 @@ fn read_event(fmt: &str, kinds: &[String], variant: usize) -> String {
     let text = concretise(fmt, kinds, variant);
     let r = catch_unwind(AssertUnwindSafe(|| {
         if fmt == "iccma" {
-            Iccma23Reader::default().read(&mut text.as_bytes()).ok().map(|af| af_json(&af, &|l: &usize| *l))
+            read_iccma(text.as_bytes()).ok().map(|af| af_json(&af, &|l: &usize| *l))
         } else {
-            AspartixReader::default().read(&mut text.as_bytes()).ok().map(|af| af_json(&af, &|l: &String| apx_label_num(l)))
+            read_apx(text.as_bytes()).ok().map(|af| af_json(&af, &|l: &String| apx_label_num(l)))
         }
     }));
     match r {
@@ -151,9 +181,9 @@ fn total_event(fmt: &str, bytes: &[u8], origin: &str) -> String {
     let r = catch_unwind(AssertUnwindSafe(|| {
         let mut b = bytes;
         if fmt == "iccma" {
-            Iccma23Reader::default().read(&mut b).is_ok()
+            read_iccma(b).is_ok()
         } else {
-            AspartixReader::default().read(&mut b).is_ok()
+            read_apx(b).is_ok()
         }
     }));
     let res = match r {
@@ -374,10 +404,10 @@ pub fn cmd_io(a: &Args) {
             want.dedup();
             let r = catch_unwind(AssertUnwindSafe(|| {
                 let (args, got, raw, ids_ok) = if fmt == "iccma" {
-                    let af = Iccma23Reader::default().read(&mut t.as_bytes()).ok()?;
+                    let af = read_iccma(t.as_bytes()).ok()?;
                     af_json(&af, &|l: &usize| *l)
                 } else {
-                    let af = AspartixReader::default().read(&mut t.as_bytes()).ok()?;
+                    let af = read_apx(t.as_bytes()).ok()?;
                     af_json(&af, &|l: &String| apx_label_num(l))
                 };
                 let got: Vec<(usize, usize)> = got.iter().map(|p| (p[0], p[1])).collect();
@@ -426,7 +456,7 @@ pub fn cmd_io(a: &Args) {
                 AspartixWriter.write_framework(&af, &mut buf).unwrap();
                 let text = String::from_utf8(buf).unwrap();
                 let nlines = text.matches('\n').count();
-                let back = AspartixReader::default().read(&mut text.as_bytes()).ok()?;
+                let back = read_apx(text.as_bytes()).ok()?;
                 let want_args: Vec<&String> = (0..n).filter(|k| live[*k]).map(|k| &labels[k]).collect();
                 let got_args: Vec<&String> = back.argument_set().iter().map(|a| a.label()).collect();
                 let mut got_atts: Vec<(String, String)> = back.iter_attacks().map(|t| (t.attacker().label().clone(), t.attacked().label().clone())).collect();
@@ -451,7 +481,7 @@ pub fn roundtrip(af: &AAFramework<String>) -> Value {
         AspartixWriter.write_framework(af, &mut buf).unwrap();
         let text = String::from_utf8(buf).unwrap();
         let nlines = text.matches('\n').count();
-        match AspartixReader::default().read(&mut text.as_bytes()) {
+        match read_apx(text.as_bytes()) {
             Ok(back) => {
                 let (args, att, raw, _) = af_json(&back, &|l: &String| l[1..].parse::<usize>().unwrap_or(99));
                 json!({"res": "ok", "args": args, "att": att, "natt_raw": raw, "nlines": nlines})
